@@ -284,23 +284,29 @@ func (t *Task) latestDependency(pg wpg.Conn) (uint64, []byte, error) {
 			and ig_name = ANY($2)
 			order by ig_name, num desc
 		)
-		select num, hash
+		select num, hash, (select count(*) from latest)
 		from latest
 		order by num asc
 		limit 1;
 	`
-	num, hash := uint64(0), []byte{}
+	// every dependency must have recorded progress
+	deps := slices.Clone(t.destConfig.Dependencies)
+	slices.Sort(deps)
+	deps = slices.Compact(deps)
+	num, hash, n := uint64(0), []byte{}, int64(0)
 	err := pg.QueryRow(
 		t.ctx,
 		q,
 		t.srcName,
 		t.destConfig.Dependencies,
-	).Scan(&num, &hash)
+	).Scan(&num, &hash, &n)
 	switch {
 	case errors.Is(err, pgx.ErrNoRows):
 		return 0, nil, nil
 	case err != nil:
 		return 0, nil, err
+	case n < int64(len(deps)):
+		return 0, nil, nil
 	default:
 		return num, hash, nil
 	}
